@@ -206,6 +206,14 @@ def gen_cases(tier, seed):
         add({"op": "spi", "time": times, "b": b, "e": e, "groups": gr, "seed": rng.randrange(10**6), "strdate": rng.random() < 0.3, "dask": rng.random() < 0.2})
         if gr and b != -1 and e != -1:
             add({"op": "calidx", "time": times, "b": b, "e": e, "groups": gr, "ng": ng})
+    # long axes: more than 127 / 255 members in one group (counters of a narrow integer type would wrap)
+    for T, ng in ((300, 1), (300, 2), (420, 2)) if quick else ((300, 1), (300, 2), (420, 2), (600, 1), (600, 3)):
+        times = [10 + 2 * i for i in range(T)]
+        gr = [i % ng for i in range(T)]
+        for b, e in ((-1, -1), (times[5], times[T - 40])):
+            add({"op": "spi", "time": times, "b": b, "e": e, "groups": gr, "seed": rng.randrange(10**6), "strdate": False, "dask": False})
+            if b != -1:
+                add({"op": "calidx", "time": times, "b": b, "e": e, "groups": gr, "ng": ng})
     # sub-daily axes with bounds given as date-only strings (coarser than the axis)
     for _ in range(25 if quick else 250):
         T = rng.choice([6, 10, 16, 24])
